@@ -57,12 +57,12 @@ FUNCTIONS_ENCODED = [
     "pyanalyze.stacked_scopes.extract_constraints / annotate_with_constraint (constraints carried by the value of a boolean `or`, incl. a disjunct without constraint)",
     "pyanalyze.predicates.IsAssignablePredicate / EqualsPredicate / InPredicate",
     "pyanalyze.name_check_visitor.NameCheckVisitor._constraint_from_compare_op / _constraint_from_predicate_provider (on a stub self)",
-    "pyanalyze.implementation._isinstance_impl / _len_impl / len_of_value / len_transformer",
+    "pyanalyze.implementation._isinstance_impl / _issubclass_impl / _len_impl / len_of_value / len_transformer",
     "pyanalyze.boolability.get_boolability", "pyanalyze.value.is_overlapping / can_overlap, pyanalyze.annotated_types checks",
 ]
 BOUNDS = {
     "quick": {"values": "23 value shapes (literals, unions, scalars, Optional, tuples, enum, classes, type[A])",
-              "conditions": "is/is not None|True|enum member, == / != / < / <= / > / >= k, in / not in (a, b), truthiness, isinstance against 9 type sets, len(x) OP n; both polarities; a rotating half of the (value, condition) pairs",
+              "conditions": "is/is not None|True|enum member, == / != / < / <= / > / >= k, in / not in (a, b), truthiness, isinstance against 9 type sets, issubclass against 4, len(x) OP n; both polarities; a rotating half of the (value, condition) pairs",
               "data": "object payloads, literals in V, comparison constants: unbounded ints; str <= 2 chars; tuples <= 2 elements"},
     "thorough": {"values": "same", "conditions": "all pairs; and / or of two conditions on a sample", "data": "same"},
 }
@@ -246,6 +246,14 @@ def build(cond, k1, k2, s1, stub):
         ret = impl._isinstance_impl(ctx)
         c = extract_constraints(ret)
         return c, (lambda o: isinstance(o, typs)), (lambda o: isinstance(o, typs)), (lambda o: True)
+    if kind == "issubclass":
+        typs = {"A": M.A, "B": M.B, "int": int, "A_int": (M.A, int)}[cond[1]]
+        vis = StubVisitor()
+        ctx = call_context({"cls": TypedValue(object), "class_or_tuple": KnownValue(typs)}, vis)
+        ctx.composites["cls"] = Composite(TypedValue(object), VN, NODE)
+        ret = impl._issubclass_impl(ctx)
+        c = extract_constraints(ret)
+        return c, (lambda o: issubclass(o, typs)), (lambda o: isinstance(o, type) and issubclass(o, typs)), (lambda o: True)
     if kind == "len":
         op = cond[1]
         vis = StubVisitor()
@@ -375,7 +383,7 @@ VALUES = [
     ("union", ("bool",), ("none",)), ("union", ("lit", P0), ("none",)), ("vtuple", ("int",)), ("tuple", ("int",), ("int",)),
     ("union", ("tuple", ("int",)), ("tuple", ("int",), ("int",))), ("pvtuple", ("int",), ("int",)), ("enum",),
     ("union", ("enum",), ("none",)), ("cls", "A"), ("union", ("cls", "B"), ("int",)), ("type", "A"), ("union", ("float",), ("str",)),
-    ("lit", True), ("union", ("lit", "a"), ("int",)),
+    ("lit", True), ("union", ("lit", "a"), ("int",)), ("type", "B"), ("union", ("type", "A"), ("none",)),
 ]
 
 CONDS = (
@@ -386,6 +394,7 @@ CONDS = (
     + [["truthy"]]
     + [["isinstance", nm] for nm in ISINSTANCE_SETS]
     + [["len", op] for op in ("==", "<", ">=")]
+    + [["issubclass", nm] for nm in ("A", "B", "int", "A_int")]
 )
 
 
@@ -408,6 +417,8 @@ def _second_kinds(cond) -> List[str]:
         return ["str"]
     if cond[0] == "is":
         return ["none", "bool"] if cond[2] != "RED" else ["enum"]
+    if cond[0] == "issubclass":
+        return ["clsB"]
     return ["int"]
 
 
